@@ -210,6 +210,18 @@ class _Quantifier(_UnaryOperator):
         grouped = df.groupby(by=self.free_vars)["index"].apply(list)
         return df, grouped
 
+    def reset_bounds(self):
+        super().reset_bounds()
+        if len(self.free_vars) == 0:
+            self.neuron.bounds_table = self.neuron.bounds_table.reshape(-1, 2)[0]
+        else:
+            for neuron in self.neurons:
+                neuron.reset_bounds()
+            if self.neurons:
+                self.neuron.bounds_table = torch.vstack(
+                    [n.get_data() for n in self.neurons]
+                )
+
     def _create_neuron(self, arity):
         kwds = {"propositional": False, "arity": arity, "world": self.world}
         neuron = _NeuralActivation()(activation={"weights_learning": False}, **kwds)
